@@ -56,6 +56,10 @@ CHECKS.update({
    note="3-valued dyadic one-step state-space model, N in {2,3}, hand-composed pipelines of <= 5 moves, custom proposal = dyadic proposal given the observation; rejuvenation by mh on the latent; rejuvenation_smc's ESS-triggered composite is covered by its constituent moves only",
    technique="TLA+ spec (SMC.tla) checked by TLC: proper weighting per move and E[Zhat] = evidence exactly (rational registers + POSTCONDITION) over all behaviours; behaviours replayed on the real smc module with scripted particle draws, ancestors, offsets and accept thresholds",
    text="TLC enumerates every behaviour (all particle draws, ancestor vectors/offset intervals, accept patterns) of init/extend (default and custom proposals), resample (both methods) and rejuvenate(mh) pipelines and proves that the mass-weighted sum of exp(log_marginal_likelihood()) equals the exact evidence after every move; sampled behaviours are replayed on the real smc functions: per-particle choices, integer log weights and log_marginal_likelihood compared after every move, rejuvenation leaves weights untouched."),
+ "C09": dict(category="model_checking", design_ref="DESIGN.md §4 C09",
+   note="mh: GFI corpus (finite dyadic models); mala/hmc: three Gaussian targets with unit scales on a rational grid (states, noises in {-1,0,1/2}, step sizes {1/2,1}, 2 leapfrog steps); the acceptance probability is pinned by two thresholds (-10% / +10%), not measured exactly; invariance of the posterior follows from detailed balance and is not sampled",
+   technique="TLA+ specs checked by TLC: GFI.tla (DetailedBalance of mh as the weight identity, MHOK) and MCMC.tla (MH rule, antisymmetry, leapfrog involution, energy rule, exact rationals); behaviours replayed on the real kernels with scripted proposals, noise and thresholds; TLC counterexamples are replayed on the real code before they count",
+   text="mh: TLC checks for every observed-data pattern, selection (incl. inside Vmap/Scan/Cond sub-calls), proposal outcome and accept/reject that the weight equals the change of the unselected log-probabilities - equivalent to detailed balance for the rule min(1, e^w) - also for the mixture-indicator move, that accepted moves return the proposal and rejected ones the input; behaviours replayed on the real mh. mala/hmc: TLC computes proposals and log acceptance ratios exactly in rationals, checks the Metropolis-Hastings rule, antisymmetry (detailed balance), leapfrog involution and the energy rule; each case runs on the real kernels with scripted per-coordinate noise: proposed values, accept/reject at thresholds around the exact probability, rejected => identical trace, one normal per coordinate, observed addresses untouched."),
 })
 
 PENDING = {}
